@@ -2,7 +2,8 @@ SPECIFICATION Spec
 CONSTANT CONFS = {1, 2, 3, 4, 5, 6}
 CONSTANT TRS = {1, 2, 3, 4}
 CONSTANT LAYS = {0, 1, 2}
-CONSTANT PATS = {1, 2, 3, 4}
+CONSTANT BOTHMODES = FALSE
+CONSTANT PATS = {1, 2, 4}
 INVARIANT PremiseHolds
 INVARIANT Linear
 INVARIANT UniformEqual
